@@ -13,7 +13,7 @@ def publish_request(request: Ref['mqtt.pdu.PUBLISH']) -> bool:
     """the request object as built by MQTTProtocol.publish() from its arguments"""
     return (is_int(request.qos) and is_str(request.topic) and is_bool(request.retain) and request.dup == False
             and is_bool(request.dup) and is_none(request.msgId) and is_none(request.encoded)
-            and is_unset(request.alarm) and is_unset(request.deferred)
+            and is_unset(request.alarm) and is_unset(request.deferred) and is_unset(request.g_base)
             and (is_str(request.payload) or is_bytes(request.payload) or is_int(request.payload) or is_none(request.payload)
                  or is_real(request.payload) or is_bool(request.payload)))
 
@@ -34,6 +34,7 @@ def _(self: Ref['mqtt.client.pubsubs.MQTTProtocol'], request: Ref['mqtt.pdu.PUBL
     requires(inv(self) and is_list_bytes(self.transport.tr_out) and is_none(self.g_firing) and isa(self._pingReq, 'mqtt.pdu.PINGREQ'))
     requires(publish_request(request))
     modifies(all_but(KEEP_API))
+    ensures(base_fixed())
     ensures(inv(self) and is_list_bytes(self.transport.tr_out))
     ensures(implies(old(alarms_set(self)), alarms_set(self)))
     ensures(is_bool(result.d_fired) and not (result.d_val == exc('MQTTStateError')))
@@ -54,6 +55,19 @@ def _(self: Ref['mqtt.client.pubsubs.MQTTProtocol'], request: Ref['mqtt.pdu.PUBL
                     not result.d_fired and is_int(request.msgId) and 1 <= request.msgId and request.msgId <= 65535
                     and request.msgId == self.factory.id))
     ensures(len(W(self)) <= old(len(W(self))) or len(W(self)) <= self._window)
+    # whatever is released now goes out as a first transmission (DUP clear), the new request included
+    ensures(forall(lambda j: implies(old(dq_head(Q(self))) <= j and j < dq_head(Q(self)),
+                                     is_bool(dq_at(Q(self), j).dup) and not dq_at(Q(self), j).dup)))
+    ensures(implies(not publish_rejected(request), is_bool(request.dup) and not request.dup))
+    # nothing that could be sent is left waiting
+    ensures(implies(not publish_rejected(request),
+                    dq_len(Q(self)) == 0 or (is_int(dq_at(Q(self), dq_head(Q(self))).msgId) and len(W(self)) >= self._window)))
+    # the packet this request stands for from now on (its stored bytes only ever differ from it in the DUP flag)
+    ensures(implies(not publish_rejected(request),
+                    request.g_base == sPUBLISH(False, request.qos, request.retain, request.topic,
+                                               as_int(request.msgId) if request.qos > 0 else 0,
+                                               utf8(request.payload) if is_str(request.payload) else as_bytes(request.payload))
+                    and same_packet(as_bytes(request.encoded), as_bytes(request.g_base))))
 
 
 @ghost_at('mqtt.client.pubsubs.MQTTProtocol.doPublish', after='request.deferred = defer.Deferred()')
@@ -64,3 +78,10 @@ def _():
 @ghost_at('mqtt.client.pubsubs.MQTTProtocol.doPublish', after='self.factory.queuePublishTx[self.addr].append(request)')
 def _():
     gset(request.q_pos, dq_tail(Q(self)) - 1)
+
+
+# I.enc: the packet a request stands for is fixed when it is encoded
+@ghost_at('mqtt.client.pubsubs.MQTTProtocol.doPublish', after='request.encode()')
+def _():
+    gset(request.g_base, as_bytes(request.encoded))
+    hint(dup_clear(as_bytes(request.encoded)))      # a freshly encoded PUBLISH (dup False) has the flag clear
